@@ -1129,7 +1129,7 @@ def open_symfile(I, path, mode):
     if path in files:
         if mode != "rb":
             I.unsupported("symbolic file opened in mode %r" % mode)
-        return SymFile(path, files[path])
+        return SymFile((path, (I.options.get("symfile_versions") or {}).get(path, 0)), files[path])          # content identity = (path, version)
     return None
 
 
@@ -1312,8 +1312,10 @@ DigestText.psx_eq = _digest_eq
 
 
 class _SymStat(object):
-    def __init__(self, size):
+    def __init__(self, size, mtime=None):
         self.st_size = size
+        if mtime is not None:
+            self.st_mtime = mtime          # whole seconds (sub-second resolution is outside the model)
 
 
 @func_model(os.fstat)
@@ -1328,7 +1330,16 @@ def _fstat(I, args, kwargs):
 def _stat(I, args, kwargs):
     files = I.options.get("symfiles") or {}
     if args and isinstance(args[0], str) and args[0] in files:
-        return _SymStat(models.mkint(files[args[0]]))
+        mt = (I.options.get("symfile_mtimes") or {}).get(args[0])
+        return _SymStat(models.mkint(files[args[0]]), models.mkint(mt) if mt is not None else None)
+    return NotImplemented
+
+
+@func_model(os.path.getmtime)
+def _getmtime(I, args, kwargs):
+    mts = I.options.get("symfile_mtimes") or {}
+    if args and isinstance(args[0], str) and args[0] in mts:
+        return models.mkint(mts[args[0]])
     return NotImplemented
 
 
